@@ -65,10 +65,16 @@ func (p *ProjectionParser) Parse(projection string, filter *Filter) (*Projection
 	if err != nil {
 		return nil, err
 	}
+	// An expression that turns out to be invalid part way through must
+	// leave no trace in the parser: the keys it named are projected by
+	// nothing, so they must not be excluded from the group keys of the
+	// other projections or of Residue.
+	rollback := p.checkpoint()
 	var filterParts []filterFn
 	for _, part := range parts {
 		f, err := p.makeProjection(proj, projection, part)
 		if err != nil {
+			rollback()
 			return nil, err
 		}
 		if f != nil {
@@ -86,6 +92,22 @@ func (p *ProjectionParser) Parse(projection string, filter *Filter) (*Projection
 	}
 
 	return proj, nil
+}
+
+// checkpoint records the exclusions and group flags of p and returns a
+// function that restores them.
+func (p *ProjectionParser) checkpoint() (rollback func()) {
+	configKeys := make(map[string]bool, len(p.configKeys))
+	for k := range p.configKeys {
+		configKeys[k] = true
+	}
+	nFullname := len(p.fullnameKeys)
+	haveConfig, haveFullname := p.haveConfig, p.haveFullname
+	return func() {
+		p.configKeys = configKeys
+		p.fullnameKeys = p.fullnameKeys[:nFullname:nFullname]
+		p.haveConfig, p.haveFullname = haveConfig, haveFullname
+	}
 }
 
 // ParseWithUnit is like Parse, but the returned Projection has an
